@@ -33,7 +33,8 @@ OBJ = {"a": [1, 2, {"b": 3}], "items": [{"n": 1}, {"n": 2}, {"n": 3}], "é": "e-
 ARR = [{"a": [1, 2, {"b": 3}], "n": 2}, {"a": [], "n": 0}, "s", {"é": 1, "\\u00e9": 2, "x y": 3, "x%20y": 4}]
 DOCS = {"object": json.dumps(OBJ).encode(), "array": json.dumps(ARR).encode(), "malformed": b'{"a": [1, ', "malformed-scalar": b"tru", "undecodable": b'{"a": "\xff\xfe"}', "empty-file": b""}
 
-PATH = {"ok": "$..a[*]", "ok-filter": "$..[?@.n > 1].n", "ok-escape": "$..['\\u00e9']", "ok-empty-result": "$.nope.nada", "ok-empty-query": "", "ok-union": "$..a[*] | $..n | $.s", "ok-intersection": "$..n & $..[?@.n > 1].n", "syntax": "$[1,,2]",
+PATH = {"ok": "$..a[*]", "ok-filter": "$..[?@.n > 1].n", "ok-escape": "$..['\\u00e9']", "ok-empty-result": "$.nope.nada", "ok-empty-query": "", "ok-union": "$..a[*] | $..n | $.s", "ok-intersection": "$..n & $..[?@.n > 1].n",
+        "ok-multiline": "$..[?@.n > 1\n  and @.n < 3\n  or @.n == 1\n].n", "syntax": "$[1,,2]",
         "type": "$[?length(@.a, @.b) > 1]", "name": "$[?nosuch(@.a)]", "index": "$[9007199254740992]",
         "illtyped-only-when-checked": "$..[?length(@.*) > 1]", "unterminated": "$['a", "bad-regex": "$..[?@.s =~ /(/]"}
 POINTER = {"object": {"ok": "/a/2/b", "ok-root": "", "ok-escape": "/\\u00e9", "ok-uri": "/x%20y", "ok-nonascii": "/é", "unresolvable-key": "/nope",
@@ -180,7 +181,7 @@ def run(chk: Check, tier: str, seed: int) -> None:
         chk.sample(rec)
     chk.exhaustive = True
     chk.rule = ("terminal states of MC_Cli.tla: 3 sub-commands x every combination of --debug, --pretty, --no-unicode-escape, expression inline/file, document "
-                "stdin/file, output stdout/file, --no-type-checks / --uri-decode x 14/9/13 expression classes (path: incl. union and intersection queries) x 6 document classes (incl. an undecodable text without brackets), each instantiated with a "
+                "stdin/file, output stdout/file, --no-type-checks / --uri-decode x 15/9/13 expression classes (path: incl. union and intersection queries and one written over several lines) x 6 document classes (incl. an undecodable text without brackets), each instantiated with a "
                 "concrete input and run through jsonpath.cli.main(); every state is a distinct configuration")
     chk.assumptions += ["main() is run in-process with patched argv/stdio; an exception escaping main() is counted as the traceback + exit status 1 the interpreter would produce",
                         "message wording is not compared, only exit status, stream contents and line counts"]
